@@ -42,8 +42,15 @@ def rand_frame_df(rng, df, n=None):
     if n is None:
         n = 14 if df >= 16 else 7
     f = [rng.randrange(256) for _ in range(n)]
-    if rng.random() < 0.06:
+    u = rng.random()
+    if u < 0.06:
         f = plant(rng, f, 1, n, aligned=(1, 4, n - 3))
+    elif u < 0.10:
+        # self-similar: the last 24 bits (parity / address-parity) repeat six hex digits from earlier in the frame - decoders
+        # that cut the frame up by searching for a substring trip over these; value decoders ignore the field anyway
+        h = bytes(f).hex()
+        k = rng.randrange(2, 2 * n - 11)
+        f = list(bytes.fromhex(h[:2 * n - 6] + h[k:k + 6]))
     f[0] = (df << 3) | (f[0] & 7)
     return f
 
@@ -60,6 +67,65 @@ def selfsimilar(rng, df, n=None):
         h = bytes(f).hex()
         h = h[:2 * n - 6] + h[k:k + 6]
         out.append(list(bytes.fromhex(h)))
+    return out
+
+
+def selfsim_tail(rng, f, prob=0.12):
+    """with probability `prob`: copy of the finished 14-byte frame `f` whose last 24 bits repeat six consecutive hex digits of
+    its own ME / MB field (any nibble offset) - to be applied AFTER the payload has been written"""
+    if len(f) != 14 or rng.random() >= prob:
+        return f
+    h = bytes(f).hex()
+    k = rng.randrange(8, 17)
+    return list(bytes.fromhex(h[:22] + h[k:k + 6]))
+
+
+def solve_tail(data, target):
+    """the last three bytes of `data` (a byte list whose final 24 bits are free, e.g. the AA field of a DF11 reply) chosen so
+    that parity(data) == target: the CRC is linear, so this is a 24 x 24 system over GF(2); None if it is singular"""
+    n = len(data)
+    base = list(data[:n - 3]) + [0, 0, 0]
+    p0 = parity(base)
+    cols = []
+    for b in range(24):
+        d = list(base)
+        d[n - 3 + b // 8] |= 0x80 >> (b % 8)
+        cols.append(parity(d) ^ p0)
+    want = target ^ p0
+    # Gaussian elimination on the 24 column vectors
+    rows = [(cols[b], 1 << b) for b in range(24)]
+    sol = 0
+    basis = []
+    for vec, tag in rows:
+        for bv, bt in basis:
+            if vec & (bv & -bv):
+                vec ^= bv
+                tag ^= bt
+        if vec:
+            basis.append((vec, tag))
+    for bv, bt in sorted(basis, key=lambda x: -(x[0] & -x[0])):
+        pass
+    # reduce `want` with the basis (each basis vector has a distinct lowest set bit after the loop above only approximately:
+    # do a proper reduction)
+    red = []
+    for bv, bt in basis:
+        for rv, rt in red:
+            if bv & (rv & -rv):
+                bv ^= rv
+                bt ^= rt
+        if bv:
+            red = [((rv ^ bv) if rv & (bv & -bv) else rv, (rt ^ bt) if rv & (bv & -bv) else rt) for rv, rt in red]
+            red.append((bv, bt))
+    for rv, rt in red:
+        if want & (rv & -rv):
+            want ^= rv
+            sol ^= rt
+    if want:
+        return None
+    out = list(base)
+    for b in range(24):
+        if sol >> b & 1:
+            out[n - 3 + b // 8] |= 0x80 >> (b % 8)
     return out
 
 
